@@ -29,8 +29,9 @@ SHRINK_BUDGET = {'quick': 40, 'thorough': 300}
 
 def strategy(tier):
   P = 2 if tier == 'quick' else 4
-  return st.fixed_dictionaries({'perms': st.lists(st.integers(0, 10**6), min_size=P, max_size=P),
-                                'h': O.history('formula', 1, 10)})
+  perms = st.lists(st.integers(0, 10**6), min_size=P, max_size=P)
+  return st.one_of(st.fixed_dictionaries({'perms': perms, 'h': O.history('formula', 1, 10)}),
+                   st.fixed_dictionaries({'perms': perms, 'h': O.history('rowchains', 2, 10, max_ops=3)}))
 
 
 def make_permuted_engine(seed, stats):
